@@ -226,8 +226,204 @@ fn case(ctx: &mut Ctx, index: u64, rng: &mut Rng) {
     }
 }
 
+/// The same property over a REAL socketpair with real threads: T OS threads send through one connection whose socket
+/// has a small send buffer (partial writes happen in the kernel); a raw peer thread records every `recvmsg` (bytes and
+/// fds). Checked offline: the stream frames into exactly the sent messages, once each, per-sender order, and every fd
+/// group arrives with a read that covers the first byte of its message. Runs natively, under ASan, TSan and valgrind.
+fn real_case(ctx: &mut Ctx, index: u64, rng: &mut Rng) {
+    use crate::harness::realsock::*;
+    use std::os::fd::AsRawFd;
+    use std::os::unix::net::UnixStream;
+    ctx.count("evaluations", 1);
+    ctx.count("class:real-socketpair-threads", 1);
+    let files = fd_files();
+    let (a, mut b) = match UnixStream::pair() {
+        Ok(x) => x,
+        Err(e) => {
+            ctx.problem(&format!("socketpair: {e}"));
+            return;
+        }
+    };
+    set_sndbuf(&a, *rng.pick(&[2048, 4096, 16384, 212992]));
+    let nthreads = 2 + rng.usize_below(7);
+    let per = 1 + rng.usize_below(8);
+    // pre-build the messages (Message is Send)
+    let mut plan: Vec<Vec<(Message, Vec<(u64, u64)>)>> = Vec::new();
+    let mut total_bytes = 0usize;
+    for s in 0..nthreads {
+        let mut msgs = Vec::new();
+        for q in 0..per {
+            let pad = match rng.below(8) {
+                0 => 0,
+                1 => 60_000 + rng.usize_below(80_000),
+                2 => 4000 + rng.usize_below(5000),
+                _ => rng.usize_below(300),
+            };
+            let nf = if rng.chance(1, 3) { 1 + rng.usize_below(3) } else { 0 };
+            let mut bld = StructureBuilder::new().add_field(s as u32).add_field(q as u32).add_field("p".repeat(pad));
+            let mut ids = Vec::new();
+            let mut keep = Vec::new();
+            for _ in 0..nf {
+                let f = rng.pick(&files);
+                ids.push(dev_ino(f.as_fd()));
+                keep.push(f.as_fd());
+            }
+            for f in &keep {
+                bld = bld.append_field(Value::Fd(Fd::from(*f)));
+            }
+            let body: Structure<'_> = bld.build().unwrap();
+            let m = Message::signal("/s", "s.s", "S").unwrap().build(&body).unwrap();
+            total_bytes += m.data().bytes().len();
+            msgs.push((m, ids));
+        }
+        plan.push(msgs);
+    }
+    // raw peer: handshake, then record every read until EOF
+    let peer = std::thread::spawn(move || -> Result<Vec<(Vec<u8>, Vec<(u64, u64)>)>, String> {
+        let (_, rest) = raw_server_handshake(&mut b, true).map_err(|e| format!("handshake: {e}"))?;
+        let mut reads: Vec<(Vec<u8>, Vec<(u64, u64)>)> = Vec::new();
+        if !rest.is_empty() {
+            reads.push((rest, vec![]));
+        }
+        let _ = b.set_read_timeout(Some(std::time::Duration::from_secs(120)));
+        let mut buf = vec![0u8; 70_000];
+        loop {
+            match recv_with_fds(b.as_raw_fd(), &mut buf) {
+                Ok((0, _)) => break,
+                Ok((n, fds)) => reads.push((buf[..n].to_vec(), fds.iter().map(|f| dev_ino(f.as_fd())).collect())),
+                Err(e) if e.kind() == std::io::ErrorKind::Interrupted => continue,
+                Err(e) => return Err(format!("recvmsg: {e}")),
+            }
+        }
+        Ok(reads)
+    });
+    let conn = match zbus::block_on(zbus::connection::Builder::unix_stream(a).p2p().build()) {
+        Ok(c) => c,
+        Err(e) => {
+            ctx.finding(index, "harness-or-hang", "-", "real-connect", json!({"error": e.to_string()}));
+            return;
+        }
+    };
+    let mut handles = Vec::new();
+    let sent_all: std::sync::Arc<std::sync::Mutex<Vec<(usize, usize, Vec<u8>, Vec<(u64, u64)>)>>> = Default::default();
+    let errors: std::sync::Arc<std::sync::Mutex<Vec<String>>> = Default::default();
+    for (s, msgs) in plan.into_iter().enumerate() {
+        let (c, sa, er) = (conn.clone(), sent_all.clone(), errors.clone());
+        handles.push(std::thread::spawn(move || {
+            for (q, (m, ids)) in msgs.into_iter().enumerate() {
+                match zbus::block_on(c.send(&m)) {
+                    Ok(()) => sa.lock().unwrap().push((s, q, m.data().bytes().to_vec(), ids)),
+                    Err(e) => er.lock().unwrap().push(format!("sender {s} seq {q}: {e}")),
+                }
+                if q % 2 == 0 {
+                    std::thread::yield_now();
+                }
+            }
+        }));
+    }
+    for h in handles {
+        let _ = h.join();
+    }
+    // closing: the peer's read loop ends at EOF
+    let closed = zbus::block_on(async {
+        conn.graceful_shutdown().await;
+    });
+    let _ = closed;
+    let reads = match peer.join() {
+        Ok(Ok(r)) => r,
+        Ok(Err(e)) => {
+            if e.contains("recvmsg") && e.contains("timed out") || e.contains("WouldBlock") {
+                ctx.problem(&format!("C18 real-socket case {index}: peer read timed out ({e})"));
+            } else {
+                ctx.finding(index, "harness-or-hang", "-", "real-peer", json!({"error": e}));
+            }
+            return;
+        }
+        Err(_) => {
+            ctx.finding(index, "harness-or-hang", "-", "real-peer-panicked", json!({}));
+            return;
+        }
+    };
+    let desc = json!({"threads": nthreads, "per_thread": per, "total_bytes": total_bytes, "reads": reads.len()});
+    let errs = errors.lock().unwrap().clone();
+    if !errs.is_empty() {
+        ctx.finding(index, "send-error", "-", "real-socketpair", json!({"errors": errs, "case": desc}));
+        return;
+    }
+    let mut stream = Vec::new();
+    let mut read_ranges: Vec<(usize, usize)> = Vec::new();
+    for (bytes, _) in &reads {
+        read_ranges.push((stream.len(), stream.len() + bytes.len()));
+        stream.extend_from_slice(bytes);
+    }
+    let (frames, consumed) = match split_stream(&stream) {
+        Ok(x) => x,
+        Err(e) => {
+            ctx.finding(index, "wire-not-framable", "-", "real-socketpair", json!({"error": e, "case": desc}));
+            return;
+        }
+    };
+    if consumed != stream.len() {
+        ctx.finding(index, "wire-trailing-partial-message", "-", "real-socketpair", json!({"consumed": consumed, "total": stream.len(), "case": desc}));
+        return;
+    }
+    let sent = sent_all.lock().unwrap();
+    let mut by_bytes: HashMap<&[u8], Vec<usize>> = HashMap::new();
+    for (k, s) in sent.iter().enumerate() {
+        by_bytes.entry(&s.2[..]).or_default().push(k);
+    }
+    let mut seen = vec![0usize; sent.len()];
+    let mut last_seq: HashMap<usize, usize> = HashMap::new();
+    let mut starts: Vec<(usize, usize)> = Vec::new(); // (stream offset of a message's first byte, index into sent)
+    let mut offset = 0usize;
+    for f in &frames {
+        let Some(ks) = by_bytes.get(&f[..]) else {
+            ctx.finding(index, "wire-message-not-sent-by-anyone", "-", "real-socketpair", json!({"at_offset": offset, "case": desc}));
+            return;
+        };
+        let k = ks[0];
+        seen[k] += 1;
+        if let Some(prev) = last_seq.get(&sent[k].0) {
+            if sent[k].1 <= *prev {
+                ctx.finding(index, "per-sender-order-violated", "-", "real-socketpair", json!({"sender": sent[k].0, "seq": sent[k].1, "previous": prev, "case": desc}));
+            }
+        }
+        last_seq.insert(sent[k].0, sent[k].1);
+        starts.push((offset, k));
+        offset += f.len();
+    }
+    for (k, n) in seen.iter().enumerate() {
+        if *n != 1 {
+            ctx.finding(index, if *n == 0 { "sent-message-missing-on-wire" } else { "sent-message-duplicated-on-wire" }, "-", "real-socketpair", json!({"sender": sent[k].0, "seq": sent[k].1, "times": n, "case": desc}));
+        }
+    }
+    // fds: a read delivers exactly the fd groups of the messages whose first byte it covers (the kernel never hands fds
+    // to a read that does not consume the byte they were sent with)
+    let mut partial = 0u64;
+    for (r, (_, fds)) in reads.iter().enumerate() {
+        let (lo, hi) = read_ranges[r];
+        let mut want: Vec<(u64, u64)> = Vec::new();
+        for (st, k) in &starts {
+            if *st >= lo && *st < hi {
+                want.extend(sent[*k].3.iter().copied());
+            }
+        }
+        if *fds != want {
+            ctx.finding(index, "fds-not-with-first-bytes", if fds.len() > want.len() { "extra-fds" } else { "missing-or-other-fds" }, "real-socketpair", json!({"read": r, "expected": format!("{want:?}"), "got": format!("{fds:?}"), "case": desc}));
+            return;
+        }
+        if starts.iter().any(|(st, k)| *st < lo && st + sent[*k].2.len() > lo) {
+            partial += 1;
+        }
+    }
+    ctx.count("messages_checked", frames.len() as u64);
+    ctx.count("real_reads_starting_inside_a_message", partial);
+    ctx.distinct(fnv(&format!("real|{index}|{}", reads.len())));
+}
+
 pub fn run(ctx: &mut Ctx) {
-    let n = ctx.budget(4000, 200_000);
+    let only_real = ctx.args.extra.get("only").map(|s| s == "real-socket").unwrap_or(false);
+    let n = if only_real { 0 } else { ctx.budget(4000, 200_000) };
     for i in 0..n {
         if !ctx.want(i) {
             continue;
@@ -235,6 +431,15 @@ pub fn run(ctx: &mut Ctx) {
         let mut rng = ctx.rng(i);
         ctx.guarded(i, "concurrent-sends", || json!({}), |ctx| case(ctx, i, &mut rng));
     }
-    let _ = fnv;
+    // real socketpair + real threads (not under Miri: it cannot cross the socket calls)
+    let m = ctx.budget(if ctx.args.layer == "miri" { 0 } else { 140 }, 6_000);
+    for j in 0..m {
+        let i = 5_000_000_000 + j;
+        if !ctx.want(i) {
+            continue;
+        }
+        let mut rng = ctx.rng(i);
+        ctx.guarded(i, "real-socket-threads", || json!({}), |ctx| real_case(ctx, i, &mut rng));
+    }
     let _: Option<Val> = None;
 }
